@@ -90,6 +90,26 @@ def arity_sources():
     return out
 
 
+def nonascii_type_sources():
+    """project types with non-ASCII names (1-, 2- and 3-byte characters at different offsets) under every constructor
+    and constructor pair, at every site: slicing type strings by character index must not split a character"""
+    names = ["É", "Zoë", "Größe", "ユーザー", "aé", "abé", "abcé", "日本"]
+    templates = ["{}", "Vec<{}>", "Option<{}>", "HashMap<String, {}>", "({}, u32)", "(u32, {})", "Result<{}, String>", "Result<Vec<{}>, String>",
+                 "Result<(u32, {}), String>", "Result<HashMap<String, {}>, String>", "Result<Option<{}>, String>", "Result<u32, Vec<{}>>",
+                 "Vec<Result<{}, String>>", "Option<Vec<Option<{}>>>", "HashMap<String, ({}, Option<{}>)>", "Result<{}>", "Result<(u8, {})>",
+                 "BTreeMap<u8, Vec<{}>>", "HashSet<Option<{}>>", "&'static {}"]
+    out = []
+    for ni, nm in enumerate(names):
+        body = ["#[derive(Serialize, Deserialize)]\npub struct %s {\n    pub wert: u8,\n}\n" % nm]
+        for ti, t in enumerate(templates):
+            ty = t.replace("{}", nm)
+            k = ni * 100 + ti
+            body.append("#[derive(Serialize, Deserialize)]\npub struct Na%d {\n    pub f: %s,\n}\n#[tauri::command]\npub fn na%d(a: %s, s: Na%d, ch: Channel<%s>) -> %s {\n    todo!()\n}\n"
+                        "pub fn nae%d(app: tauri::AppHandle, p: %s) {\n    app.emit(\"na-%d\", p).ok();\n}\n" % (k, ty, k, ty, k, ty, ty, k, ty, k))
+        out.append(("nonascii-types%d" % ni, rustgen.PRELUDE + "use tauri::Emitter;\n" + "\n".join(body), "types named %s under constructors" % nm))
+    return out
+
+
 def rust_lit(s):
     return '"' + s.replace("\\", "\\\\").replace('"', '\\"').replace("\n", "\\n").replace("\t", "\\t") + '"'
 
@@ -151,6 +171,7 @@ def run(tier, seed):
     sources = [("exotic%d" % i, rustgen.PRELUDE + "use validator::Validate;\n" + t + "\n#[tauri::command]\npub fn anchor_%d() {}\n" % i, t[:60]) for i, t in enumerate(EXOTIC_ITEMS)]
     sources.append(("exotic-all", rustgen.PRELUDE + "use validator::Validate;\n" + "\n".join(EXOTIC_ITEMS) + "\n#[tauri::command]\npub fn anchor_all() {}\n", "all exotic items together"))
     sources += arity_sources()
+    sources += nonascii_type_sources()
     sources += fuzz_sources(rnd, 360 if tier == "quick" else 4500)
 
     def work(src):
